@@ -3292,6 +3292,33 @@ func ruleQuantRange(p *Prog, r *Result) {
 				return
 			}
 			lower, upper := inRange(q, c.Block(), 0)
+			if pa, isParam := q.(*ssa.Parameter); isParam && !(lower && upper) {
+				// a helper that builds the stream for the quantile it is given: every static call site hands it a
+				// checked one
+				idx := -1
+				for k, qq := range fn.Params {
+					if qq == pa {
+						idx = k
+					}
+				}
+				sites, okSites := 0, true
+				for _, caller := range p.Funcs {
+					allInstrs(caller, func(x ssa.Instruction) {
+						cc, isC := x.(*ssa.Call)
+						if !isC || cc.Call.StaticCallee() != fn || idx < 0 || idx >= len(cc.Call.Args) {
+							return
+						}
+						sites++
+						l2, u2 := inRange(cc.Call.Args[idx], cc.Block(), 1)
+						if !l2 || !u2 {
+							okSites = false
+						}
+					})
+				}
+				if sites > 0 && okSites {
+					lower, upper = true, true
+				}
+			}
 			r.add(lower && upper, p.FName(fn)+"|quantile", p.InstrPos(c), fmt.Sprintf("the quantile is known to lie in [0, 1] where the stream is built (lower bound %v, upper bound %v; positive comparisons, so NaN is refused)", lower, upper))
 		})
 	}
@@ -3337,6 +3364,30 @@ func ruleTokSeen(p *Prog, r *Result) {
 		return isFieldLoad(v, "Parser", "tok")
 	}
 	positive := func(pr *ssa.BasicBlock, si int) bool {
+		// `case A && B, C:` of a tagless switch evaluates A && B as a value: the condition is a merge of `false`
+		// (A failed) and B. Its true edge is a positive look when every way to `true` is a positive comparison
+		if f := ifOf(pr); f != nil && si == 0 {
+			if ph, isPhi := f.Cond.(*ssa.Phi); isPhi {
+				all := len(ph.Edges) > 0
+				for _, e := range ph.Edges {
+					if bv, isB := constBool(e); isB && !bv {
+						continue
+					}
+					bo, isBo := e.(*ssa.BinOp)
+					if !isBo || bo.Op != token.EQL {
+						all = false
+						continue
+					}
+					_, isC := bo.Y.(*ssa.Const)
+					if !(isC && (isTokField(bo.X, "Tp") || isTokField(bo.X, "Data"))) {
+						all = false
+					}
+				}
+				if all {
+					return true
+				}
+			}
+		}
 		a, ok := edgeAtom(pr, si)
 		if !ok {
 			return false
